@@ -6,6 +6,7 @@ import (
 	"fmt"
 	"go/ast"
 	"go/types"
+	"golang.org/x/tools/go/cfg"
 	"strings"
 )
 
@@ -32,6 +33,8 @@ func init() {
 				Rule: "associated data is built identically when sealing and opening; an opened ticket is accepted only after AEAD open, note.Open with the witness's own ML-DSA verifier, and origin equality", Run: c15f},
 			{ID: "C15.g", Title: "STATE-LOCK", Template: "T3", MinInst: 10,
 				Rule: "mirror state is accessed under the per-log mutex (as C14.e)", Run: c14e},
+			{ID: "C15.i", Title: "SERVABLE", Template: "T1+T2+T6", MinInst: 3,
+				Rule: "inside the NewTiles loop of the package processor, on the tile.L == 0 edge the hash-tile upload is reached only after the entry-bundle upload, whose key is the L = -1 copy of that tile; an upload is accepted only when uploadStart <= the frontier read under the lock", Run: c15i},
 		},
 	})
 }
@@ -690,4 +693,132 @@ func c15f(c *Ctx) {
 	isOriginP := func(e ast.Expr) bool { return objOf(oi, e) == open.paramObj("origin") }
 	c.guardSuccess(open, "ticket origin == request origin", g.EdgesImplying(func(a Atom) bool { rel, ok := cmpRel(a, isCkOrigin, isOriginP); return ok && rel == relEQ }), okRets,
 		"a ticket issued for another log can be used")
+}
+
+// ---------------------------------------------------------------------------
+// C15.i SERVABLE: entry bundles accompany level-0 tiles; uploads are contiguous.
+
+func c15i(c *Ctx) {
+	// (1) in the package processor, the entry bundle is written with every level-0 hash tile
+	if f := c.Fn("witness.(*Witness).processAddEntriesPackage"); f != nil {
+		c.touch(f)
+		info := f.Info()
+		g := f.Graph()
+		var dataUp, hashUp []Site
+		for _, u := range f.Calls(specUpload) {
+			switch optsVarOf(f, argByName(info, u.Call, "opts")) {
+			case "optsDataTile":
+				dataUp = append(dataUp, u)
+			case "optsHashTile":
+				hashUp = append(hashUp, u)
+			}
+		}
+		// the tile loop
+		var loop *ast.RangeStmt
+		var tileObj types.Object
+		ast.Inspect(f.Body, func(n ast.Node) bool {
+			if rs, ok := n.(*ast.RangeStmt); ok && rs.Value != nil {
+				if _, isNT := f.IsCallResult(rs.X, 0, Callee{pkgTlog, "", "NewTiles"}); isNT {
+					loop = rs
+					tileObj = objOf(info, rs.Value)
+				}
+			}
+			return true
+		})
+		inst := f.Name + " entry bundle with every level-0 tile"
+		switch {
+		case len(dataUp) != 1 || len(hashUp) != 1 || loop == nil || tileObj == nil:
+			c.Unk(inst, fmt.Sprintf("anchors: data uploads=%d hash uploads=%d NewTiles loop=%v", len(dataUp), len(hashUp), loop != nil))
+		default:
+			isL := func(e ast.Expr) bool {
+				r, p, ok := fieldPath(info, e)
+				return ok && r == tileObj && len(p) == 1 && p[0] == "L"
+			}
+			isZero := func(e ast.Expr) bool { v, ok := constInt(info, e); return ok && v == 0 }
+			notL0 := g.EdgesImplying(func(a Atom) bool { rel, ok := cmpRel(a, isL, isZero); return ok && rel&relEQ == 0 })
+			l0 := g.EdgesImplying(func(a Atom) bool { rel, ok := cmpRel(a, isL, isZero); return ok && rel == relEQ })
+			head := rangeHead(g, loop)
+			if head == nil || len(head.Succs) == 0 {
+				c.Unk(inst, "tile loop head not found")
+				break
+			}
+			body := Point{head.Succs[0], 0}
+			stopData := func(p Point, _ ast.Node) bool { return p == dataUp[0].P }
+			// with the "not level 0" edges cut, the hash-tile upload of an iteration is reached only through the bundle upload
+			pt, path := g.Reach(body, Cut{Edges: notL0, Stop: stopData, NoEnter: func(b *cfg.Block) bool { return b == head }}, atSite(hashUp[0]))
+			inLoop := func(n ast.Node) bool { return loop.Body.Pos() <= n.Pos() && n.End() <= loop.Body.End() }
+			switch {
+			case len(notL0) == 0 || len(l0) == 0:
+				c.Bad(inst, dataUp[0].Pos(), "the entry bundle upload is not tied to the level-0 tile of the package (no tile.L == 0 test)")
+			case !inLoop(dataUp[0].X) || !inLoop(hashUp[0].X):
+				c.Bad(inst, dataUp[0].Pos(), "the tile uploads are not inside the loop over tlog.NewTiles(tileStart, end)")
+			case pt != nil:
+				c.Bad(inst, hashUp[0].Pos(), "a level-0 hash tile can be written without its entry bundle (path "+g.describePath(path)+"): the mirror would serve hashes for entries it cannot serve")
+			default:
+				c.add(Result{Instance: inst, Verdict: Discharged, Evals: 1, Sites: []string{dataUp[0].Pos(), hashUp[0].Pos()},
+					Detail: "inside the NewTiles loop, on the tile.L == 0 edge the hash-tile upload is reached only after the bundle upload", Witnesses: f.WitEdges(necessaryEdgesFrom(g, body, notL0, hashUp, stopData, head))})
+			}
+			// the bundle is the tile of the same index, level -1
+			k := argByName(info, dataUp[0].Call, "key")
+			okKey := false
+			ast.Inspect(f.ResolveDeep(k).E, func(n ast.Node) bool {
+				if call, ok := n.(*ast.CallExpr); ok && matchCallee(info, call, Callee{pkgTorch, "", "TilePath"}) && len(call.Args) == 1 {
+					dt := objOf(info, call.Args[0])
+					if dt != nil && tileLevelAt(f, dt, dataUp[0]) == "-1" {
+						for _, d := range f.Defs(dt) {
+							if d.Rhs != nil && objOf(info, d.Rhs) == tileObj {
+								okKey = true
+							}
+						}
+					}
+				}
+				return true
+			})
+			if okKey {
+				c.OK(f.Name+" entry bundle key", "TilePath of a copy of the level-0 tile with L = -1", []string{dataUp[0].Pos()})
+			} else {
+				c.Bad(f.Name+" entry bundle key", dataUp[0].Pos(), "the entry bundle is not stored under the data-tile path (L = -1) of the level-0 tile being written")
+			}
+		}
+	}
+	// (2) uploads are contiguous: an accepted upload starts at or before the frontier
+	if f := c.Fn("witness.(*Witness).processAddEntriesMetadata"); f != nil {
+		c.touch(f)
+		info := f.Info()
+		g := f.Graph()
+		inst := f.Name + " upload starts at or before the frontier"
+		start := f.paramObj("uploadStart")
+		var next types.Object
+		for _, s := range f.Calls(Callee{pkgWitness, "logState", "mirrorCheckpointLocked"}) {
+			if as, ok := s.Node.(*ast.AssignStmt); ok && len(as.Lhs) == 3 {
+				next = objOf(info, as.Lhs[1])
+			}
+		}
+		okRets := successReturns(f)
+		if start == nil || next == nil || len(okRets) == 0 {
+			c.Unk(inst, "uploadStart parameter / frontier value / success return not found")
+		} else {
+			isS := func(e ast.Expr) bool { return objOf(info, e) == start }
+			isN := func(e ast.Expr) bool { return objOf(info, e) == next }
+			le := g.EdgesImplying(func(a Atom) bool { rel, ok := cmpRel(a, isS, isN); return ok && rel&relGT == 0 })
+			c.guardSuccess(f, "upload starts at or before the frontier", le, okRets, "an upload that starts beyond the frontier can be accepted: the frontier would then pass entries that were never uploaded")
+		}
+	}
+}
+
+// necessaryEdgesFrom is necessaryEdges for a loop-body query.
+func necessaryEdgesFrom(g *Graph, from Point, safe map[Edge]bool, targets []Site, stop func(Point, ast.Node) bool, head *cfg.Block) map[Edge]bool {
+	out := map[Edge]bool{}
+	for e := range safe {
+		rest := map[Edge]bool{}
+		for o := range safe {
+			if o != e {
+				rest[o] = true
+			}
+		}
+		if pt, _ := g.Reach(from, Cut{Edges: rest, Stop: stop, NoEnter: func(b *cfg.Block) bool { return b == head }}, atAnySite(targets)); pt != nil {
+			out[e] = true
+		}
+	}
+	return out
 }
